@@ -393,6 +393,33 @@ def cli_batch(res):
                 else:
                     src_cmp = src
                 compare_code(src_cmp, got, res, what)
+            # `build --lua file.lua` copies the file's bytes as they are: every way a source can end
+            if n % 3 == 0:
+                stem = src.rstrip(b'\r\n')
+                for k, tail in enumerate((b'', b'\n', b'\r', b'\r\n', b'\n\r', b'\r\r', b'\n\n', b' ', b'\t\r')):
+                    code = stem + tail
+                    try:
+                        reflex.lex(code)
+                    except reflex.Reject:
+                        continue
+                    luaf = os.path.join(d, 'l%d_%d.lua' % (n, k))
+                    open(luaf, 'wb').write(code)
+                    outp = os.path.join(d, 'lo%d_%d.p8' % (n, k))
+                    try:
+                        rc_ = tool.main(['build', outp, '--lua', luaf])
+                        got = b''.join(p8file.from_file(outp).lua.to_lines())
+                        parsed = rc.parse_p8(open(outp, 'rb').read())
+                    except Exception as e:
+                        res.violation('C06|cli|build-from-lua|raise|%s' % type(e).__name__,
+                                      'p8tool build --lua on a .lua file holding %r raised %r' % (code, e),
+                                      {'src': code, 'fam': 'cli', 'detail': 'build-from-lua'})
+                        continue
+                    if 'gfx' not in parsed.sections:
+                        res.violation('C06|cli|build-from-lua|section-swallowed',
+                                      'p8tool build --lua on a .lua file holding %r: the written .p8 has no __gfx__ section line '
+                                      '(the code runs into it)' % (code,), {'src': code, 'fam': 'cli', 'detail': 'build-from-lua'})
+                        continue
+                    compare_code(code, got, res, 'build-from-lua')
     finally:
         shutil.rmtree(d, ignore_errors=True)
 
